@@ -146,6 +146,20 @@ func TestC04Reserve(t *testing.T) {
 	}})
 }
 
+func TestC06(t *testing.T) {
+	runWorld(t, worldCheck{prop: "C06", check: "C06/world", profile: func() *harness.Profile {
+		p := gangProfile()
+		p.Weights = harness.With(p.Weights, map[string]int{harness.OpDecomNode: 3, harness.OpRelease: 8, harness.OpUpdAsk: 2, harness.OpFirePh: 5, harness.OpFireState: 2, harness.OpSetPred: 5})
+		p.PreemptProb = 35
+		return p
+	}, nonTriv: func(w *harness.World) bool {
+		core := w.Tags["c06-swap-confirmed"]+w.Tags["c06-timeout-before-real-allocation"]+w.Tags["fire-placeholder-timer"] > 0
+		disturb := w.Tags["decom-with-swap"]+w.Tags["release-placeholder-mid-swap"]+w.Tags["cancel-real-ask-mid-swap"]+w.Tags["confirm-duplicate"]+w.Tags["confirm-PREEMPTED_BY_SCHEDULER"]+
+			w.Shim.DupConfirms+w.Shim.Dropped+w.Tags["remove-app-with-allocs"] > 0
+		return core && disturb
+	}})
+}
+
 func TestC09(t *testing.T) {
 	runWorld(t, worldCheck{prop: "C09", check: "C09/world", profile: reserveProfile, nonTriv: func(w *harness.World) bool {
 		removedOther := 0
